@@ -95,8 +95,12 @@ def main():
         touched = [l[6:].strip() for l in open(patch) if l.startswith("+++ b/")]
         meta["touched"] = touched
         pkgdir = os.path.dirname(touched[0]) if touched else "serf"
+        demodir = pkgdir
+        mm = re.findall(r"\s\./([\w/]+)", " " + demo_cmd)
+        if mm and os.path.isdir(os.path.join(wt, mm[-1])):
+            demodir = mm[-1]  # the demonstration lives in the package its command names
         for f in demos:
-            dst = os.path.join(wt, pkgdir, f) if f.endswith("_test.go") else os.path.join(wt, f)
+            dst = os.path.join(wt, demodir, f) if f.endswith("_test.go") else os.path.join(wt, f)
             if os.path.isdir(os.path.join(src, f)):
                 shutil.copytree(os.path.join(src, f), os.path.join(wt, f), dirs_exist_ok=True)
             else:
@@ -123,7 +127,7 @@ def main():
         meta["demo_with_patch"] = "pass" if rc1 == 0 else "FAIL"
         # existing tests of touched packages (demo files moved away first)
         for f in demos:
-            p = os.path.join(wt, pkgdir, f)
+            p = os.path.join(wt, demodir, f)
             if os.path.exists(p) and f.endswith("_test.go"):
                 os.remove(p)
         pkgs = sorted({"./" + os.path.dirname(t) for t in touched})
@@ -135,6 +139,11 @@ def main():
             fails = [l for l in outt.splitlines() if l.startswith("--- FAIL") and "TestSyslogFilter" not in l]
             if not fails and ("ok " in outt or "TestSyslogFilter" in outt):
                 good = True
+            elif not fails and "no test files" in outt:
+                # package client has no tests of its own: its tests are the RPC client tests of the agent package
+                r2, o2 = sh("go test -vet=off -count=1 -timeout 20m -run TestRPCClient ./cmd/serf/command/agent", cwd=wt)
+                good = r2 == 0
+                details[pk + " (no test files; ran TestRPCClient* of the agent package)"] = "pass" if good else "FAIL"
             elif fails:
                 # real-time tests on shared loopback addresses flake under load: a test that
                 # failed in the full run must pass on its own (up to 4 tries each)
